@@ -6,7 +6,7 @@ META = dict(
     text="Withdraw.tla transcribes the Schnorr (payload v2) withdrawal checker -- threshold per height band, cross-chain-only "
          "inputs, signer indexes in range and distinct from the restriction height on, the program being the Schnorr script of "
          "exactly the listed keys, and the single-use test against the Tx3 index -- and TLC checks AcceptedIsAuthorised / "
-         "AuthorisedIsAccepted over arbiter sets of 3 and 4, every signer list of up to 4 indexes with repetition and an "
+         "AuthorisedIsAccepted over arbiter sets of 3 and 4 with every signer list (and sets of 12 and 36 with structured lists at the threshold: distinct, one index repeated, one out of range, one short) of up to 4 indexes with repetition and an "
          "out-of-range index, both bands, both sides of the restriction height, cross-chain or mixed inputs, three program "
          "kinds and fresh / already withdrawn hashes. Each case becomes a real v2 withdrawal with really aggregated keys and "
          "Schnorr signatures spending a real cross-chain output on a full-stack node (arbiter set through ArbitratorsMock) and "
@@ -23,6 +23,7 @@ META = dict(
 CFG = """SPECIFICATION Spec
 CONSTANTS
   Ns = {3, 4}
+  BigNs = {12, 36}
   MaxSigners = 4
   SingleUseV2 = %s
 VIEW view
